@@ -1,6 +1,7 @@
 (* C11 — stream management: resume only with the previous id and count; drop stale state. *)
 From Coq Require Import List ZArith NArith Bool.
-From XV Require Import Lib.Sx Model.Session Model.SessionSpec Proofs.SessionP Proofs.SessionSpecP.
+From XV Require Import Lib.Sx Model.Session Model.SessionSpec Proofs.SessionP Proofs.SessionSpecP
+  Proofs.SessionSmP Proofs.SessionHistP Proofs.SessionEvP.
 Import ListNotations.
 Open Scope N_scope.
 
@@ -19,6 +20,15 @@ Theorem C11_resumed_continues : forall cfg c p f rest sn,
   = ([o c (RResume (p_sm_id p) (p_inbound p)) sn], Ok, p).
 Proof. exact resumed_continues. Qed.
 
+(* ... and so does the whole connection: a negotiation that succeeds without a bind request
+   leaves everything the Client holds as it was - identity (bound JID), counters (inbound
+   count, packet ids), held stanzas (the queue), the id - only the TLS flags of the new
+   connection differ *)
+Theorem C11_resumed_keeps_state : forall cfg dial tls p script,
+  res (connect cfg dial tls p script) = Ok -> no_bind (outs (connect cfg dial tls p script)) ->
+  exists sec tlsen, pst (connect cfg dial tls p script) = set_flags (with_session p) sec tlsen.
+Proof. exact connect_resumed_state. Qed.
+
 (* the server refuses: the stale state is discarded and a bind request follows, always *)
 Theorem C11_refused_binds_fresh : forall cfg c p f s1 sn,
   f_sm f = true -> has_id p = true ->
@@ -29,14 +39,47 @@ Theorem C11_refused_binds_fresh : forall cfg c p f s1 sn,
                = RBind (c_resource cfg) (p_packet_id p + 1) :: w'.
 Proof. exact refused_binds. Qed.
 
-(* another id, an unexpected element, malformed XML or a closed stream: the state is
-   discarded and the connection fails; the old session is never continued *)
+(* ... and what the fresh session holds: no id, or an id this server issued in an <enabled/>
+   AFTER the refusal (then the negotiation succeeded and a new queue exists); the count
+   restarts at zero either way; the requests are <resume/> with the old id, then the bind *)
+Theorem C11_refused_state : forall cfg c p f s1 sn,
+  f_sm f = true -> has_id p = true ->
+  let x := step_resume cfg c p f (SFailed :: s1) sn in
+  (p_sm_id (pst x) = [] \/ issued s1 (p_sm_id (pst x)) /\ res x = Ok /\ p_has_queue (pst x) = true) /\
+  p_inbound (pst x) = 0 /\
+  exists w', reqs (outs x) = RResume (p_sm_id p) (p_inbound p) :: RBind (c_resource cfg) (p_packet_id p + 1) :: w'.
+Proof. exact refused_state. Qed.
+
+(* another id, an unexpected element, malformed XML or a closed stream: nothing but the
+   <resume/> was written, the connection fails, and the state is discarded (no id, count
+   zero, no queue: [clear_sm]); the old session is never continued *)
 Theorem C11_other_reply_discards : forall cfg c p f s sn,
   f_sm f = true -> has_id p = true ->
   (forall rest, s <> SResumed (p_sm_id p) :: rest) -> (forall s1, s <> SFailed :: s1) ->
-  exists w cp, step_resume cfg c p f s sn = (w, Err false false, clear_sm p) /\
-               cp = clear_sm p /\ p_sm_id cp = [].
-Proof. exact other_reply_discards. Qed.
+  step_resume cfg c p f s sn
+  = ([o c (RResume (p_sm_id p) (p_inbound p)) sn], Err false false, clear_sm p).
+Proof. exact other_reply_exact. Qed.
+
+(* the WRITE of <resume/> itself fails (the connection went away after the features were
+   read: [step_resume_w true], Model/Session.v).  The server has seen nothing, so nothing is
+   refused or confirmed: the negotiation ends there with an error, NO bind request is
+   written on that stream, and everything held - id, count, queue, identity - is exactly as
+   before, so a later connection may still resume that session.  (A write that does not
+   fail, or a stream on which no <resume/> is due, is the ordinary step.) *)
+Theorem C11_resume_write_failure : forall cfg c p f s sn,
+  f_sm f = true -> has_id p = true ->
+  step_resume_w true cfg c p f s sn = ([], Err false false, p).
+Proof.
+  intros cfg c p f s sn Hf Hi. unfold step_resume_w, resume_attempted, has_id in *. rewrite Hf, Hi. reflexivity.
+Qed.
+
+Theorem C11_resume_write_ok : forall cfg c p f s sn w,
+  w = false \/ f_sm f = false \/ has_id p = false ->
+  step_resume_w w cfg c p f s sn = step_resume cfg c p f s sn.
+Proof.
+  intros cfg c p f s sn w H. unfold step_resume_w, resume_attempted, has_id in *.
+  destruct H as [-> |[-> | ->]]; [reflexivity|rewrite andb_false_r; reflexivity|rewrite !andb_false_r; reflexivity].
+Qed.
 
 (* a stream on which the server does not offer stream management at all: nothing can be
    resumed there, a new session is bound, and the state held from the earlier session is
@@ -49,7 +92,7 @@ Proof. intros cfg c p f s sn H. unfold step_resume. rewrite H. reflexivity. Qed.
 
 (* once discarded the id is gone: with an empty stored id no connection, whatever the
    server says, contains a <resume/> (so a stale id is never presented again; a new
-   id can only come from a new <enabled/>: enable_sm_id) *)
+   id can only come from a new <enabled/>: C11_connection_outcome) *)
 Theorem C11_stale_never_again : forall cfg dial tls p script prev h,
   p_sm_id p = [] -> ~ In (RResume prev h) (reqs (outs (connect cfg dial tls p script))).
 Proof.
@@ -57,10 +100,66 @@ Proof.
   apply connect_resume_content in Hin as (_ & _ & Hne). contradiction.
 Qed.
 
-Theorem C11_new_id_only_from_enabled : forall cfg c p f s sn,
-  let q := pst (step_enable cfg c p f s sn) in
-  p_sm_id q = p_sm_id p \/ p_sm_id q = [] \/ exists r, In (SEnabled (p_sm_id q) r) s.
-Proof. exact enable_sm_id. Qed.
+(* ---- whole connections and histories ----
+   What ONE connection, whatever the server does on it and whatever step it fails at, can
+   have done to the resumption state ([sm_outcome], Model/SessionSpec.v):
+   (A) nothing is held afterwards; or
+   (B) a fresh session: the id is one this server handed out in an <enabled/> of this very
+       connection, the count is zero, there is a new queue, a bind was made, <enable/> was
+       sent and the negotiation succeeded; or
+   (C) the state held before is kept (id, count, queue): then NO bind request was made, and
+       if a <resume/> was sent at all, the negotiation succeeded and the server's reply was
+       <resumed/> with exactly the id held.
+   So the old state survives a connection only when nothing was asked (the negotiation
+   failed before the resume step: dial, TLS, authentication, stream restart) or the server
+   confirmed that very id. *)
+Theorem C11_connection_outcome : forall cfg dial tls p script,
+  let x := connect cfg dial tls p script in sm_outcome p script (outs x) (res x) (pst x).
+Proof. exact connect_outcome. Qed.
+
+(* ... for every connection of every history on one Client ([hist11]: the content of every
+   <resume/>, and the outcome above, the state after one connection being the state before
+   the next; failed attempts of any kind in between included) *)
+Theorem C11_history : forall cfg cs p, hist11 p cs (run_conns cfg p cs).
+Proof. intros cfg cs p. exact (run_conns_hist11 cfg cs p). Qed.
+
+(* "the stale id is never presented again": connection i presented [id] and the session was
+   not continued (the negotiation failed, or a new session was bound).  Then [id] is not
+   presented on any later connection j of the history - however many connections, refusals,
+   failed attempts lie between - unless the SERVER itself issued that very string again in
+   an <enabled/> on some connection k with i <= k < j. *)
+Theorem C11_stale_never_presented_again : forall cfg cs p i j id h h' wi ri pi wj rj pj,
+  nth_error (run_conns cfg p cs) i = Some (wi, ri, pi) -> In (RResume id h) (reqs wi) ->
+  (ri <> Ok \/ has_bindb wi = true) ->
+  (i < j)%nat ->
+  nth_error (run_conns cfg p cs) j = Some (wj, rj, pj) -> In (RResume id h') (reqs wj) ->
+  exists k c, (i <= k < j)%nat /\ nth_error cs k = Some c /\ issued (k_script c) id.
+Proof. exact stale_not_presented_again. Qed.
+
+(* What an <enabled/> does, whatever its resume attribute says (true, false, absent, garbage):
+   the id is stored and stream management is on for this session.  An <enabled/> that does not
+   grant resumption refuses RESUMPTION only: the client's wish for resumption is cleared (later
+   <enable/> requests carry resume='false'), its wish for stream management is not - on
+   record: a later connection therefore still presents that id in a <resume/>. *)
+Theorem C11_enabled_stores_id : forall cfg c p f id r rest sn,
+  f_sm f = true -> p_sm_enable p = true ->
+  step_enable cfg c p f (SEnabled id r :: rest) sn
+  = ([o c (REnable (resume_wish cfg p)) sn], Ok,
+     set_sm p id (match r with ResTrue => p_resume_refused p | _ => true end)).
+Proof.
+  intros cfg c p f id r rest sn Hf Hp. unfold step_enable. rewrite Hf, Hp. reflexivity.
+Qed.
+
+(* ... and over a whole history on one Client, whatever the servers answered: the
+   application's wish for stream management (Config.StreamManagementEnable) is still what it
+   was - so every later stream that offers it is asked for <enable/> again
+   (C03_requests_justified, C03_connect_ok_iff) - and the wish for resumption is only ever
+   cleared, never set. *)
+Theorem C11_stream_management_wish_kept : forall cfg cs p i x,
+  nth_error (run_conns cfg p cs) i = Some x ->
+  p_sm_enable (snd x) = p_sm_enable p /\
+  (p_resume_refused p = true -> p_resume_refused (snd x) = true).
+Proof. exact run_conns_wish. Qed.
 
 (* a history: enable, lose the connection after 3 stanzas, resume with h = 3 *)
 Example C11_example :
@@ -77,10 +176,43 @@ Example C11_example :
      ([ROpen; RAuth mech_plain; ROpen; RResume [9] 3], Ok)].
 Proof. reflexivity. Qed.
 
+(* a longer history: enable (id 9), a refused dial, a rejected password, a resumption answered
+   with ANOTHER id (state gone, connection fails), a fresh session (id 5), a refused resumption
+   followed by a new session (id 6), a confirmed resumption of that one *)
+Example C11_history_example :
+  let f1 := {| f_tls := TlsNone; f_mechs := [mech_plain]; f_bind := false; f_sess := SessAbsent; f_sm := false |} in
+  let f2 := {| f_tls := TlsNone; f_mechs := []; f_bind := true; f_sess := SessAbsent; f_sm := true |} in
+  let cfg := {| c_insecure := true; c_resource := []; c_sm_resume := true; c_mechs := [mech_plain] |} in
+  let hello := [SHeader []; SFeatures f1; SSuccess; SHeader []; SFeatures f2] in
+  let k d s t := {| k_dial := d; k_tls := false; k_traffic := t; k_script := s |} in
+  let bind := SIq TResult (PlBind [1]) false in
+  let cs := [k true (hello ++ [bind; SEnabled [9] ResTrue]) 3;
+             k false [] 0;
+             k true [SHeader []; SFeatures f1; SSaslFailure] 0;
+             k true (hello ++ [SResumed [8]]) 0;
+             k true (hello ++ [bind; SEnabled [5] ResTrue]) 2;
+             k true (hello ++ [SFailed; bind; SEnabled [6] ResTrue]) 1;
+             k true (hello ++ [SResumed [6]]) 0] in
+  map (fun x => (filter (fun r => match r with RResume _ _ | RBind _ _ => true | _ => false end) (reqs (fst (fst x))),
+                 snd (fst x), p_sm_id (snd x)))
+      (run_conns cfg (fresh true) cs)
+  = [([RBind [] 1], Ok, [9]); ([], Err true false, [9]); ([], Err true true, [9]);
+     ([RResume [9] 3], Err false false, []); ([RBind [] 2], Ok, [5]);
+     ([RResume [5] 2; RBind [] 3], Ok, [6]); ([RResume [6] 1], Ok, [6])].
+Proof. reflexivity. Qed.
+
 Print Assumptions C11_resume_content.
 Print Assumptions C11_resumed_continues.
 Print Assumptions C11_refused_binds_fresh.
+Print Assumptions C11_resumed_keeps_state.
+Print Assumptions C11_refused_state.
 Print Assumptions C11_other_reply_discards.
+Print Assumptions C11_resume_write_failure.
+Print Assumptions C11_resume_write_ok.
 Print Assumptions C11_not_offered_discards.
 Print Assumptions C11_stale_never_again.
-Print Assumptions C11_new_id_only_from_enabled.
+Print Assumptions C11_connection_outcome.
+Print Assumptions C11_history.
+Print Assumptions C11_stale_never_presented_again.
+Print Assumptions C11_enabled_stores_id.
+Print Assumptions C11_stream_management_wish_kept.
